@@ -28,6 +28,7 @@ func (e *Engine) resetFor(fi *FuncInfo) {
 	e.notes = map[string]bool{}
 	e.loopIdx = map[ast.Stmt]*types.Var{}
 	e.localRefs = map[string]bool{}
+	e.published = map[string]bool{}
 	e.modifiesOK = map[string]bool{}
 	e.obCount = map[string]int{}
 	e.idTerms = map[string]*Term{}
